@@ -148,7 +148,10 @@ func (n *NodeState) IsNewerThan(other *NodeState) bool {
 	if n.Generation != other.Generation {
 		return n.Generation > other.Generation
 	}
-	if n.ID == other.ID && n.LogicalClock != 0 && other.LogicalClock != 0 {
+	// 同一节点在 Generation、LogicalClock 均相同的情况下仍可能是两个不同的实例：节点以相同 NodeID 重启时根据种子视图中的旧记录
+	// 推算新的 Generation，若种子的记录本身已落后（例如分区刚恢复），新实例会与其他节点所持有的旧实例记录打成平手，
+	// 仅比较 LogicalClock 时新实例永远无法取代旧记录（旧记录还会被同地址的心跳不断续期）。平手时以启动时间戳决出新旧
+	if n.ID == other.ID && n.LogicalClock != 0 && other.LogicalClock != 0 && n.LogicalClock != other.LogicalClock {
 		return n.LogicalClock > other.LogicalClock
 	}
 	return n.Timestamp > other.Timestamp
